@@ -261,3 +261,15 @@ func (r *Registry) EvalBytes(b []byte) []byte {
 	r.evalMu.Unlock()
 	return v
 }
+
+// Args returns the argument list a digest was computed from (nil if unknown).
+func (r *Registry) Args(b []byte) [][]byte {
+	if len(b) != 32 {
+		return nil
+	}
+	var k [32]byte
+	copy(k[:], b)
+	r.mu.RLock()
+	defer r.mu.RUnlock()
+	return r.defs[k]
+}
